@@ -17,8 +17,8 @@ ASSUMPTIONS = [
 ]
 STUBS = ['numpy.allclose -> elementwise |a-b| <= atol + rtol*|b| (harness only)']
 OUTSIDE = ['larger instances', 'infeasible instances', 'M overrides', 'weighted GraphPartitioning thresholds (reported separately as default-mode only)', 'float rounding']
-BOUNDS = {'quick': {'SetCover': '3 sets over 2 elements (2 systems), log_trick both', 'VertexCover': '4 graphs on <=4 vertices', 'BILP': 'm=1,N=3 and m=2,N=2, c in [-1,1], S,b in [-1,1]',
-                    'JobSequencing': '2 jobs x 2 workers, lengths in 1..2, log_trick both', 'GraphPartitioning': '3 graphs on 4 vertices', 'NumberPartitioning': '3 numbers in +-3',
+BOUNDS = {'quick': {'SetCover': '3 sets over 2 elements (2 systems), log_trick both; 3 pairs over 4 elements without log trick (15 QUBO variables)', 'VertexCover': '4 graphs on <=4 vertices', 'BILP': 'm=1,N=3 and m=2,N=2, c in [-1,1], S,b in [-1,1]',
+                    'JobSequencing': '2 jobs x 2 workers, 1 x 2, 2 x 3, lengths in 1..2, log_trick both', 'GraphPartitioning': '3 graphs on 4 vertices', 'NumberPartitioning': '3 numbers in +-3',
                     'AlternatingSectorsChain': 'N<=5, chain_length 2..3, pbc both'},
           'thorough': {'SetCover': '+3 elements', 'JobSequencing': '+3 jobs, 3 workers', 'NumberPartitioning': '4 numbers in +-4', 'BILP': 'N=3,m=2'}}
 
